@@ -161,7 +161,8 @@ ConfS2W(e, pre) ==
          failed == {e.starts[i].t : i \in {i \in DOMAIN e.starts : ~e.starts[i].ok}}
          W1 == [W EXCEPT !.wq = [rq \in DOMAIN W.wq |-> SelectSeq(W.wq[rq], LAMBDA x : x.t \notin ids)], !.armed = failed]
          hit == SetToSortSeq({x \in W1.running : x.t \in ids}, LAMBDA a, b : a.t < b.t)
-         W2 == FoldSeqLeft(LAMBDA WW, x : WTaskEnd(WW, w, x, "none"), W1, hit)
+         \* (in runs with slow stops the executions that were hit stay in `running` until their step Die)
+         W2 == IF pf.slow THEN W1 ELSE FoldSeqLeft(LAMBDA WW, x : WTaskEnd(WW, w, x, "none"), W1, hit)
      IN \* several running tasks ending in one step report in the order the runtime polls them: compare only single hits exactly
         IF Len(hit) <= 1 THEN WorkerAgrees(W2, w, e)
         ELSE {RunKey(x) : x \in W2.running} = {RunKey(x) : x \in WkOf(e.st)[w].running}
@@ -176,6 +177,16 @@ ConfExit(e, pre) ==
           ELSE LET x == CHOOSE x \in xs : TRUE IN
                WorkerAgrees(WTaskEnd([WRecOf(w, pre) EXCEPT !.armed = failed], w, x, IF e.args.ok THEN "Finished" ELSE "Failed"), w, e)
 
+\* the process of a stopped execution is gone (runs with slow stops): handle_task_future without a report
+ConfDie(e, pre) ==
+  LET w == e.args.w IN
+  IF w \notin DOMAIN wk \/ w \notin DOMAIN WkOf(e.st) THEN TRUE
+  ELSE LET xs == {x \in wk[w].running : x.t = e.args.t /\ x.inst = e.args.inst}
+           failed == {e.starts[i].t : i \in {i \in DOMAIN e.starts : ~e.starts[i].ok}}
+       IN IF xs = {} THEN TRUE
+          ELSE LET x == CHOOSE x \in xs : TRUE IN
+               WorkerAgrees(WTaskEnd([WRecOf(w, pre) EXCEPT !.armed = failed], w, x, "none"), w, e)
+
 \* names of the conformance checks violated by line e (pre = logged state of the previous line)
 ConfViol(e, pre) ==
   IF ~(SnOnly /\ NoTime) THEN {}
@@ -186,9 +197,10 @@ ConfViol(e, pre) ==
        \cup (IF e.a = "Lose" /\ ~ConfLose(e) THEN {"AUX_Conf_Lose"} ELSE {})
        \cup (IF e.a = "S2W" /\ CpuOnly /\ ~ConfS2W(e, pre) THEN {"AUX_Conf_S2W"} ELSE {})
        \cup (IF e.a = "Exit" /\ CpuOnly /\ ~ConfExit(e, pre) THEN {"AUX_Conf_Exit"} ELSE {})
+       \cup (IF e.a = "Die" /\ CpuOnly /\ ~ConfDie(e, pre) THEN {"AUX_Conf_Die"} ELSE {})
 
 \* number of steps compared (for the evidence)
-Compared(e) == SnOnly /\ NoTime /\ e.a \in {"W2S", "Cancel", "Lose", "S2W", "Exit", "Schedule", "Submit"}
+Compared(e) == SnOnly /\ NoTime /\ e.a \in {"W2S", "Cancel", "Lose", "S2W", "Exit", "Die", "Schedule", "Submit"}
 
 ConfInit == TraceInit /\ panic = "" /\ wkq = <<>> /\ submitted = {} /\ budget = <<>> /\ armedFail = {} /\ drift = {} /\ journal = <<>> /\ late = {} /\ ncomp = 0 /\ pf = [reserve |-> 0, max |-> 1, slow |-> FALSE]
 
@@ -197,10 +209,9 @@ ConfNext ==
   /\ l <= Len(Rec)
   /\ LET e == Rec[l]
          live == alive /\ e.a # "Reset" /\ e.pan = 0 /\ l > 1
-         \* (runs in which a stopped execution dies at a later step are not compared: the model lets it end at once)
-         cv == IF live /\ ~pf.slow THEN ConfViol(e, Rec[l - 1].st) ELSE {}
+         cv == IF live THEN ConfViol(e, Rec[l - 1].st) ELSE {}
      IN /\ pf' = IF e.a = "Reset" THEN [reserve |-> e.args.profile.reserve, max |-> e.args.profile.pf_max, slow |-> e.args.profile.slow_stop] ELSE pf
-        /\ ncomp' = ncomp + (IF live /\ ~pf.slow /\ Compared(e) THEN 1 ELSE 0)
+        /\ ncomp' = ncomp + (IF live /\ Compared(e) THEN 1 ELSE 0)
         /\ TraceNextWith({V(n, e) : n \in cv})
 
 ConfSpec == ConfInit /\ [][ConfNext]_<<cvars, ncomp, pf>>
